@@ -1,5 +1,30 @@
 import Ptn.C06.Model
-/-! Line-protocol handler for the C06 model (core Lean only). -/
+import Ptn.C05.Driver
+/-! Line-protocol handler for C06 (core Lean only).
+
+  sweepend first|second|twosite <start> <last> <u0:h0> …  → centre after the events of one step
+                                                            (before `_reset_for_next_time_step` in
+                                                            the first-order variant), or `none`
+-/
 namespace Ptn.C06
-def handle (args : List String) : String := "bad-op"
+open Ptn.C05
+
+def handle (args : List String) : String :=
+  match args with
+  | "sweepend" :: variant :: start :: last :: segs =>
+    match start.toNat?, last.toNat?, segs.mapM parseSeg with
+    | some c, some l, some ss =>
+      let out : Option (Option (List Ev)) :=
+        match variant with
+        | "first" => some (some (first ss l))
+        | "second" => some (second ss l)
+        | "twosite" => some (twoSite ss l)
+        | _ => none
+      match out with
+      | none => "bad-op"
+      | some none => "none"
+      | some (some tr) => toString (centreAfter c tr)
+    | _, _, _ => "bad-op"
+  | _ => "bad-op"
+
 end Ptn.C06
